@@ -12,6 +12,7 @@ package c03
 
 import (
 	"fmt"
+	"math"
 	"sort"
 	"strings"
 	"testing"
@@ -167,6 +168,44 @@ var elemUint8 = elem[uint8]{
 	gen:  rapid.Uint8Range(0, 9),
 	sent: func(i int) uint8 { return uint8(200 + i) },
 	proj: func(v uint8) int { return int(v) },
+}
+
+// wide numeric element types (Min / Max / MinMax only): values that do not
+// survive a detour through float64 or a narrower type - around 2^53, at the
+// limits of the type, infinities (no NaN: its ordering is not documented).
+var wideInt64s = []int64{math.MinInt64, math.MinInt64 + 1, -(1 << 53) - 1, -(1 << 53), -1, 0, 1, 1 << 53, 1<<53 + 1, 1<<53 + 2,
+	1<<62 + 1, math.MaxInt64 - 1, math.MaxInt64}
+var wideUint64s = []uint64{0, 1, 1 << 53, 1<<53 + 1, 1 << 63, 1<<63 + 1, math.MaxUint64 - 1, math.MaxUint64}
+var wideFloats = []float64{math.Inf(-1), -math.MaxFloat64, -1e300, -1, -math.SmallestNonzeroFloat64, 0, math.SmallestNonzeroFloat64,
+	1, 1 << 53, 1<<53 + 2, 1e300, math.MaxFloat64, math.Inf(1)}
+
+var elemInt64Wide = elem[int64]{
+	name: "int64-wide",
+	gen: rapid.OneOf(rapid.SampledFrom(wideInt64s), rapid.Int64(),
+		rapid.Custom(func(t *rapid.T) int64 { return 1<<53 + int64(rapid.IntRange(-4, 4).Draw(t, "d")) })),
+	sent: func(i int) int64 { return 9001 + int64(i) },
+	proj: func(v int64) int { return int(v % 11) },
+}
+
+var elemUint64Wide = elem[uint64]{
+	name: "uint64-wide",
+	gen:  rapid.OneOf(rapid.SampledFrom(wideUint64s), rapid.Uint64()),
+	sent: func(i int) uint64 { return 9001 + uint64(i) },
+	proj: func(v uint64) int { return int(v % 11) },
+}
+
+var elemFloatWide = elem[float64]{
+	name: "float64-wide",
+	gen:  rapid.SampledFrom(wideFloats),
+	sent: func(i int) float64 { return 9001.5 + float64(i) },
+	proj: func(v float64) int { return 0 },
+}
+
+var elemFloat32Wide = elem[float32]{
+	name: "float32-wide",
+	gen:  rapid.SampledFrom([]float32{float32(math.Inf(-1)), -math.MaxFloat32, -1, 0, 1, 1 << 24, 1<<24 + 2, math.MaxFloat32, float32(math.Inf(1))}),
+	sent: func(i int) float32 { return 9001.5 + float32(i) },
+	proj: func(v float32) int { return 0 },
 }
 
 // ---------------------------------------------------------------- windows
@@ -1395,6 +1434,10 @@ func buildRegistry() map[string][]runFn {
 	add(numHelpers(elemInt))
 	add(numHelpers(elemFloat))
 	add(numHelpers(elemUint8))
+	add(numHelpers(elemInt64Wide))
+	add(numHelpers(elemUint64Wide))
+	add(numHelpers(elemFloatWide))
+	add(numHelpers(elemFloat32Wide))
 	r["Range"] = []runFn{
 		rangeHelper("int", func(q int) int { return q }),
 		rangeHelper("float64", func(q int) float64 { return float64(q) / 4 }),
